@@ -48,8 +48,9 @@ def gen_hostile(rng):
         # chains, markers) never ends
         unit, period, start, lead = rng.choice(TILES)
         p = {'unit': unit, 'period': period, 'start': start,
-             'lead': list(lead), 'total': rng.choice((MI + 5, MI + 5,
-                                                       2 * MI)),
+             'lead': list(lead),
+             'total': 2 * MI if unit.startswith('kdmv') or
+             unit == 'desc_line' else rng.choice((MI + 5, MI + 5, 2 * MI)),
              'fill': rng.choice(('zero', 'zero', 'inc', 'text'))}
         if rng.random() < 0.3:
             p['start'] = start + rng.choice((0, period, 7 * period))
@@ -200,6 +201,16 @@ class C05(Check):
                 bump(fa, 'empty_chunk')
             names = F.FORMATS if len(sizes) <= 600 else ('vmdk', 'vhdx',
                                                          'iso', 'luks')
+            if case.get('kind') == 'tiled' and len(sizes) > 600:
+                # many small reads: feed the inspector whose structures are
+                # being repeated (all of them see the coarse schedule)
+                u = p.get('unit', '')
+                names = (('iso',) if u.startswith('iso:') else
+                         ('vhdx',) if u in ('regi', 'metadata', 'vhdx') else
+                         ('vmdk',) if u.startswith('kdmv') or
+                         u == 'desc_line' else
+                         ('luks',) if u == 'luks' else
+                         ('gpt', 'qcow2', 'vhd', 'qed', 'vdi'))
             for name in names:
                 r = imgsim.drive_bare(name, data, sizes, watch_regions=False,
                                       mem_bound=bound_of(name))
